@@ -446,9 +446,17 @@ impl MintBuilder {
         &self,
     ) -> impl Iterator<Item = (&TransactionInput, usize)> {
         self.mints.iter().filter_map(|(_, script_mint)| {
-            if let ScriptMint::Plutus(plutus_mints) = script_mint {
-                if let PlutusScriptSourceEnum::RefInput(script_ref, _) = &plutus_mints.script {
-                    return Some((&script_ref.input_ref, script_ref.script_size));
+            match script_mint {
+                ScriptMint::Plutus(plutus_mints) => {
+                    if let PlutusScriptSourceEnum::RefInput(script_ref, _) = &plutus_mints.script {
+                        return Some((&script_ref.input_ref, script_ref.script_size));
+                    }
+                }
+                // a native script supplied by reference input counts towards the reference-script fee as well
+                ScriptMint::Native(native_mints) => {
+                    if let NativeScriptSourceEnum::RefInput(input, _, _, script_size) = &native_mints.script {
+                        return Some((input, *script_size));
+                    }
                 }
             }
             None
